@@ -8,7 +8,7 @@ Import ListNotations.
 Local Open Scope string_scope.
 
 (** T2: the generated skeletons are the action sequences of the hand model *)
-Lemma skeleton_ok : skeleton_matches tsrm_fns = true.
+Lemma skeleton_ok : skeleton_matches tsrm_fns constructors = true.
 Proof. vm_compute. reflexivity. Qed.
 Lemma discipline : discipline_ok tsrm_fns = true.
 Proof. vm_compute. reflexivity. Qed.
